@@ -5,6 +5,7 @@ package main
 import (
 	"bufio"
 	"context"
+	"encoding/hex"
 	"encoding/json"
 	"errors"
 	"fmt"
@@ -62,6 +63,8 @@ type armSpec struct {
 	point, victim string
 	nth           int
 	cl            *Cluster
+	// victim "pause": the goroutine that reaches the point signals `reached` and waits for `release`
+	reached, release chan struct{}
 }
 
 var armed struct {
@@ -86,6 +89,12 @@ func init() {
 			return nil
 		}
 		armed.spec = nil
+		if a.victim == "pause" {
+			armed.Unlock()
+			close(a.reached)
+			<-a.release
+			return nil
+		}
 		cl := a.cl
 		self := cl.indexOf(who)
 		victim := self
@@ -272,6 +281,93 @@ func init() {
 						armed.Lock()
 						armed.fired = map[string]interface{}{"point": "colocate", "who": a, "part": p, "victim": x, "form": form}
 						armed.Unlock()
+					}
+					ob["t0"], ob["t1"] = t0.UnixMilli(), time.Now().UnixMilli()
+				case "d43":
+					// A Delete that races a fragment move of the same partition (D43). Partition p is being handed over
+					// from B (previous owner, still holds the data) to A (owner). The Delete of a key of p is stopped on A
+					// right after it took A's fragment lock; B's balancer then exports the table and sends it to A, whose
+					// merge waits for that lock; the Delete is released and waits for B's fragment lock, held by the move.
+					// The cycle is broken by client timeouts: the MOVEFRAGMENT call started first and gives up first, the
+					// Delete is acknowledged, and the merges still queued on A re-import the key.
+					t0 := time.Now()
+					ob = map[string]interface{}{"r": "ok", "found": false}
+					view := cl.Live()[0]
+					for p := uint64(0); p < view.Cfg.PartitionCount && ob["found"] == false; p++ {
+						ow := view.DB.VerifPrimary().PartitionByID(p).Owners()
+						if len(ow) != 2 {
+							continue
+						}
+						a, b := cl.indexOf(ow[1].Name), cl.indexOf(ow[0].Name)
+						if a < 0 || b < 0 {
+							continue
+						}
+						ks := cl.Members[b].DB.VerifDMap().VerifFragmentKeys(partitions.PRIMARY, op.D, p)
+						if len(ks) == 0 || len(cl.Members[a].DB.VerifDMap().VerifFragmentKeys(partitions.PRIMARY, op.D, p)) != 0 {
+							continue
+						}
+						key := ""
+						for _, k := range ks {
+							if key == "" || k < key {
+								key = k
+							}
+						}
+						spec := &armSpec{point: "delete.locked", victim: "pause", nth: 1, cl: cl, reached: make(chan struct{}), release: make(chan struct{})}
+						armed.Lock()
+						armed.spec = spec
+						armed.Unlock()
+						dm, err := cl.Members[a].Emb.NewDMap(op.D)
+						if err != nil {
+							ob["r"] = "harness:" + err.Error()
+							break
+						}
+						delDone := make(chan error, 1)
+						go func() {
+							ctx, cancel := context.WithTimeout(context.Background(), 60*time.Second)
+							defer cancel()
+							_, err := dm.Delete(ctx, key)
+							delDone <- err
+						}()
+						select {
+						case <-spec.reached:
+						case <-time.After(5 * time.Second):
+							ob["r"] = "harness:the Delete did not reach its fail point"
+						}
+						if ob["r"] != "ok" {
+							close(spec.release)
+							break
+						}
+						moveDone := make(chan struct{})
+						go func() {
+							cl.Members[b].DB.VerifBalancer().BalanceEagerly()
+							close(moveDone)
+						}()
+						time.Sleep(300 * time.Millisecond)
+						close(spec.release)
+						var delErr error
+						select {
+						case delErr = <-delDone:
+						case <-time.After(60 * time.Second):
+							delErr = fmt.Errorf("no answer within 60s")
+						}
+						select {
+						case <-moveDone:
+						case <-time.After(60 * time.Second):
+						}
+						// let the merges that are still queued on the owner finish
+						time.Sleep(500 * time.Millisecond)
+						ctx, cancel := context.WithTimeout(context.Background(), 10*time.Second)
+						g, gerr := dm.Get(ctx, key)
+						cancel()
+						ob["found"], ob["part"], ob["owner"], ob["sender"] = true, p, a, b
+						ob["k"] = hex.EncodeToString([]byte(key))
+						ob["del"] = olricErr(delErr)
+						ob["get"] = olricErr(gerr)
+						if gerr == nil {
+							v, _ := g.Byte()
+							ob["val"] = hex.EncodeToString(v)
+						}
+						ob["ms"] = time.Since(t0).Milliseconds()
 					}
 					ob["t0"], ob["t1"] = t0.UnixMilli(), time.Now().UnixMilli()
 				case "fired":
